@@ -459,6 +459,7 @@ Proof.
   - cbn in Co. destruct (export_import_preserves_registry Co _ _ I K H) as (RS & _ & _ & HP & _ & HD & _ & _ & _ & _ & HG & HV).
     destruct ST as (R & S1 & S2 & S3 & S4). split; [unfold rate1; rewrite HV; exact R|].
     unfold stake_inv. rewrite HD, HG, HP. repeat split; intros; rewrite RS in *; eauto.
+  - unfold observe_set in H. guards H. inversion H; subst. eapply sinv_frame; eauto.
   - eapply end_block_stake; eauto.
 Qed.
 
